@@ -1,19 +1,61 @@
 (** C02: every document written by the real encoder (source package + generated wrappers) for a value
-    of an analysed type conforms to the wire-format shape of that type. *)
+    of an analysed type conforms to the wire-format shape of that type; and the codec model of
+    Sem/GoVal.v, run on the very values the test binary marshalled, writes the same document and reads
+    back the same value as encoding/json did. *)
 From Coq Require Import List String ZArith Bool Arith NArith.
-From GM Require Import Base.Result Facts.GoFacts Facts.Ana Model.Enums Model.Fields Model.Classify Model.SqlTypes Sem.GoJson.
+From GM Require Import Base.Result Facts.GoFacts Facts.Ana Model.Enums Model.Fields Model.Classify Model.SqlTypes Sem.GoJson Sem.GoVal.
 Import ListNotations.
 Local Open Scope string_scope.
 
-Record c2_case := { c2_prog : prog; c2_enums : list enum; c2_ana : ana_obs; c2_docs : list (gty * json) }.
+Record c2_case := { c2_prog : prog; c2_enums : list enum; c2_ana : ana_obs; c2_docs : list (gty * json);
+                    c2_vals : list (gty * value * json * value) (* type, value, document written, value read back *) }.
 
 Definition doc_ok (c : c2_case) (tj : gty * json) : bool :=
   let nodes := ao_nodes (c2_ana c) in
   conformsb (env_of (c2_prog c) nodes (c2_enums c)) (2 * json_depth (snd tj) + 6)
             (shape_of (c2_prog c) nodes (c2_enums c) 12 false (fst tj)) (snd tj).
 
-Definition chk (c : c2_case) : bool := forallb (doc_ok c) (c2_docs c).
+(** the codec model against the real encoder and decoder, on one value *)
+Definition val_ok (c : c2_case) (e : gty * value * json * value) : bool :=
+  let '(t, v, doc, back) := e in
+  let nodes := ao_nodes (c2_ana c) in
+  let env := env_of (c2_prog c) nodes (c2_enums c) in
+  let sh := shape_of (c2_prog c) nodes (c2_enums c) 12 false t in
+  let fuel := 2 * json_depth doc + 6 in
+  match encode env fuel sh v with
+  | Some j => json_eqb j doc
+  | None => false end
+  && match decode env fuel sh doc with
+     | Some w => value_eqb w back
+     | None => false end.
+
+(** the premise of the round-trip theorem, computed on the environment of the module *)
+Definition env_ok (c : c2_case) : bool :=
+  match c2_vals c with [] => true | _ => env_wf (env_of (c2_prog c) (ao_nodes (c2_ana c)) (c2_enums c)) end.
+
+Definition chk (c : c2_case) : bool := forallb (doc_ok c) (c2_docs c) && env_ok c && forallb (val_ok c) (c2_vals c).
 
 Fixpoint mism_from (n : N) (cases : list c2_case) : list N :=
   match cases with [] => [] | c :: r => if chk c then mism_from (N.succ n) r else n :: mism_from (N.succ n) r end.
 Definition mismatches := mism_from 0%N.
+
+(** the property on the artefacts themselves: the value the real decoder built equals the value marshalled,
+    a nil and an empty slice or map counting as equal *)
+Definition rt_ok (c : c2_case) : bool :=
+  forallb (fun e : gty * value * json * value => let '(_, v, _, back) := e in value_eqb (canon back) (canon v)) (c2_vals c).
+
+Fixpoint rt_from (n : N) (cases : list c2_case) : list N :=
+  match cases with [] => [] | c :: r => if rt_ok c then rt_from (N.succ n) r else n :: rt_from (N.succ n) r end.
+Definition roundtrip_failures := rt_from 0%N.
+
+(** which values of a case the model and the implementation disagree on (replay detail) *)
+Definition details (cases : list c2_case) : list (list (gty * bool * bool)) :=
+  map (fun c => flat_map (fun e : gty * value * json * value =>
+                  let '(t, v, doc, back) := e in
+                  if val_ok c e then [] else
+                    let nodes := ao_nodes (c2_ana c) in
+                    let env := env_of (c2_prog c) nodes (c2_enums c) in
+                    let sh := shape_of (c2_prog c) nodes (c2_enums c) 12 false t in
+                    let fuel := 2 * json_depth doc + 6 in
+                    [(t, match encode env fuel sh v with Some j => json_eqb j doc | None => false end,
+                         match decode env fuel sh doc with Some w => value_eqb w back | None => false end)]) (c2_vals c)) cases.
